@@ -115,6 +115,14 @@ func main() {
 			cfg.PCTDepth = 1 + r.Intn(3)
 			cfg.PCTLen = 200 + r.Intn(400)
 		}
+		// in a third of the executions one goroutine stalls at a random step until everybody else has
+		// come to rest (the shape of most check-then-act windows)
+		if r.Intn(3) == 0 {
+			cfg.Delays = []int{20 + r.Intn(500)}
+			if r.Intn(3) == 0 {
+				cfg.Delays = append(cfg.Delays, 20+r.Intn(700))
+			}
+		}
 		rt.OnLivelock = func(res *rt.Result) {
 			// the stuck goroutine cannot be stopped: report what we have and leave; the caller
 			// restarts the run after this index
